@@ -63,13 +63,21 @@ def make_options(cfg: dict, flow: Any = None) -> pstreams.SerializerOptions:
         params = dataclasses.replace(StreamParameters(), **kw)
     else:
         params = StreamParameters(**kw)
-    return pstreams.SerializerOptions(
+    options = pstreams.SerializerOptions(
         flow=flow,
         frame_size=cfg.get("frame_size", 250),
         logical_type=cfg.get("logical", FLAT_LOGICAL[cfg["physical"]]),
         params=params,
         lookup_preset=LookupPreset(max_names=n, max_prefixes=p, max_datatypes=d),
     )
+    via = cfg.get("options_transport")
+    if via:
+        # the options reach the writer as a COPY of what the caller configured (templates, worker processes)
+        import copy
+        import pickle
+        options = {"copy": copy.copy, "deepcopy": copy.deepcopy,
+                   "pickle": lambda o: pickle.loads(pickle.dumps(o))}[via](options)
+    return options
 
 
 def make_stream(cfg: dict, options: pstreams.SerializerOptions | None = None):
